@@ -40,12 +40,12 @@ var host64 = strings.Repeat("a", 31) + "." + strings.Repeat("b", 27) + ".test" /
 
 // concrete spellings of the value classes of spec/RewriteValue.tla
 var rvSpellings = map[string][]string{
-	"empty": {""}, "garbage": {"!!", "1.2.3", "zz::1"}, "text": {"hello", "v=spf1 -all", "\"", "\"\"", "\"a\"", "a\"", "\"a", "'"}, "spaces": {"a b  c", " "},
+	"empty": {""}, "garbage": {"!!", "1.2.3", "zz::1", "dead.beef", "1::2::3", "[::1]", "1.2.3.4.5", "::1%eth0x y"}, "text": {"hello", "v=spf1 -all", "\"", "\"\"", "\"a\"", "a\"", "\"a", "'"}, "spaces": {"a b  c", " "},
 	"v4": {"1.2.3.4", "127.0.0.1"}, "v6": {"::1", "2001:db8::1", "FE80::1"}, "mapped": {"::ffff:1.2.3.4"},
 	"host": {"c1.test", "EXAMPLE.org", "xn--e1afmkfd.test", "a-b.c"}, "hostdot": {"c1.test."}, "badhost": {"-bad.test", "a..b", "a_b.test", "bad-.x/y", "c1.test..", "new-ptr.example...", ".", ".."},
 	"len63": {host63}, "len64": {host64},
 	"mx_ok": {"10 mx.test", "0 mail.example.org"}, "mx_max": {"65535 mx.test"}, "mx_1field": {"mx.test", "10"},
-	"mx_over": {"65536 mx.test"}, "mx_neg": {"-1 mx.test"}, "mx_nan": {"ten mx.test", "1.5 mx.test"}, "mx_badhost": {"10 -bad", "10 a b", "10 "},
+	"mx_over": {"65536 mx.test"}, "mx_neg": {"-1 mx.test"}, "mx_nan": {"ten mx.test", "1.5 mx.test"}, "mx_badhost": {"10 -bad", "10 a b", "10 ", "10 .", "10 .."},
 	"srv_ok": {"1 2 3 srv.test", "65535 65535 65535 s.test"}, "srv_dot": {"0 0 0 ."}, "srv_3fields": {"1 2 srv.test", "1 2 3"},
 	"srv_5fields": {"1 2 3 srv.test extra"}, "srv_over_prio": {"65536 2 3 srv.test"}, "srv_over_weight": {"1 65536 3 srv.test"},
 	"srv_over_port": {"1 2 65536 srv.test"}, "srv_nan": {"a 2 3 srv.test", "1 b 3 srv.test", "1 2 c srv.test", "1 2 -3 srv.test"},
@@ -59,7 +59,7 @@ var rvShort = map[string][]string{
 	"empty": {""}, "NOERROR": {"NOERROR"}, "SERVFAIL": {"SERVFAIL"}, "NXDOMAIN": {"NXDOMAIN"}, "REFUSED": {"REFUSED"},
 	"OTHERUPPER": {"FORMERR", "BADKEY", "XYZ", "NOTIMP", "A"}, "v4": {"1.2.3.4", "0.0.0.0"}, "v6": {"::1", "2001:db8::1", "::"},
 	"mapped": {"::ffff:1.2.3.4"}, "host": {"c1.test", "Example.ORG", "localhost", "a-b.c"}, "len63": {host63},
-	"badhost": {"-bad.test", "a..b", "a_b.test", "nxdomain!"}, "len64": {host64}, "onesemi": {"NOERROR;A", ";", "NXDOMAIN;"},
+	"badhost": {"-bad.test", "a..b", "a_b.test", "nxdomain!", ".", ".."}, "len64": {host64}, "onesemi": {"NOERROR;A", ";", "NXDOMAIN;"},
 }
 
 func (c *rvCase) texts() []string {
